@@ -572,6 +572,8 @@ func (p *Forkable) ProcessBlock(blk *pbbstream.Block, obj interface{}) error {
 	}
 
 	if p.includeInitialLIB && p.lastBlockSent == nil && blk.Id == p.forkDB.LIBID() {
+		// keep the block so that lookups (by hash, by number, lowest block) know it like any other delivered block
+		p.forkDB.AddLink(blk.AsRef(), blk.ParentId, &ForkableBlock{Block: blk, Obj: obj})
 		return p.processInitialInclusiveIrreversibleBlock(blk, obj, true)
 	}
 
@@ -1009,7 +1011,7 @@ func (p *Forkable) LowestBlockNum() uint64 {
 	if p.lastBlockSent == nil {
 		return 0
 	}
-	if segment, reachLib := p.forkDB.CompleteSegment(p.lastBlockSent.AsRef()); reachLib {
+	if segment, reachLib := p.forkDB.CompleteSegment(p.lastBlockSent.AsRef()); reachLib && len(segment) > 0 {
 		return segment[0].BlockNum
 	}
 	return 0
